@@ -90,8 +90,8 @@ def directory(entries, chunk_size, density=2, index_levels=0, fill=None, pmgi_fi
         while j < len(lower):
             cand = [encint(len(nm)) + nm + b'\x80\x80\x80\x00' for nm in lower[j:j + 400]]      # room for any chunk number
             n = _fit(8, cand, chunk_size, density, qr_exact)
-            if fill: n = max(1, min(n, fill()))
-            assert n > 0, "chunk size too small for a PMGI entry"
+            if fill: n = max(min(n, 2), min(n, fill()))        # >= 2 per index chunk, or levels never shrink
+            assert n > 1 or (n == 1 and len(lower) - j == 1), "chunk size too small for two PMGI entries"
             cur.append((j, n)); j += n
         levels.append(cur); lower = [lower[a] for a, _ in cur]
     npmgl = len(groups); npmgi = sum(len(l) for l in levels)
@@ -167,7 +167,9 @@ def _names(rng, k):
     return out
 
 
-def random_case(rng, size='small', version=None, **_):
+def random_case(rng, size='small', version=None, chunk_size=None, density=None, index_levels=None, rtable=None, **_):
+    """random CHM; the keyword features pin a choice (chunk_size is raised to the
+    smallest size that holds the longest entry), everything else is random"""
     total = pick_size(rng, size); k = rng.choice([1, 2, 3, 5, 8, 20, 60]) if size != 'small' else rng.choice([1, 2, 3, 5, 8, 20])
     names = _names(rng, k); cuts = sorted(rng.randint(0, total) for _ in range(k - 1)); lens = [b - a for a, b in zip([0] + cuts, cuts + [total])]
     for i in range(k):
@@ -178,11 +180,11 @@ def random_case(rng, size='small', version=None, **_):
     # --- section 1: the LZX stream
     one = [i for i in range(k) if sec[i] == 1 and lens[i]]
     s1len = sum(lens[i] for i in one); sysfiles = []
-    entries = []; s0parts = []                           # section 0 pieces (name or None, bytes)
+    entries = []
     if s1len:
         wb = rng.randint(15, 21); rframes = rng.choice([1, 2, 2, 4]); rb = rframes * FRAME
         padded = -(-s1len // rb) * rb
-        rt = rng.choice(['normal', 'normal', 'normal', 'entry4', 'missing', 'short'])
+        rt = rtable or rng.choice(['normal', 'normal', 'normal', 'entry4', 'missing', 'short'])
         e8 = rt in ('normal', 'entry4') and padded <= rb and rng.random() < 0.5
         toks = None; data = None
         if rng.random() < 0.5:
@@ -222,8 +224,10 @@ def random_case(rng, size='small', version=None, **_):
     entries += [(m['name'], m['section'], m['offset'], len(m['data'])) for m in members]
     entries += [(b'/' + nm.strip(b'/').split(b'/')[0] + b'_dir%d/' % j, 0, 0, 0) for j, nm in enumerate(names[:ndirs])]
     need = max(len(encint(len(n)) + n + encint(s) + encint(o) + encint(l)) for n, s, o, l in entries) + 0x14 + 4
-    chunk_size = min(8192, max(need, rng.choice([22, need, need + rng.randint(0, 40), 256, 512, 4096, 4096, 8192, rng.randint(need, 8192)])))
-    density = rng.choice([0, 1, 2, 2, 3, 5]); levels = rng.choice([0, 0, 1, 1, 2, 3])
+    chunk_size = min(8192, max(need, chunk_size or rng.choice([22, need, need + rng.randint(0, 40), 256, 512, 4096, 4096, 8192, rng.randint(need, 8192)])))
+    density = rng.choice([0, 1, 2, 2, 3, 5]) if density is None else density
+    levels = rng.choice([0, 0, 1, 1, 2, 3]) if index_levels is None else index_levels
+    if levels: chunk_size = min(8192, max(chunk_size, 2 * (need - 0x14) + 16))     # an index chunk must hold two entries
     version = version or rng.choice([2, 3, 3])
     fillstyle = rng.choice(['full', 'full', 'random', 'one'])
     fill = {'full': None, 'random': lambda: rng.randint(1, 12), 'one': lambda: rng.choice([1, 2])}[fillstyle]
